@@ -9,7 +9,7 @@ import cxx2c
 from cxxast import LoweringError
 
 REPO = os.environ.get('VERIF_REPO', '/repo')
-BUILD = os.path.join(ROOT, 'build')
+BUILD = os.environ.get('VERIF_BUILD') or os.path.join(ROOT, 'build')
 CHECKS = ['--bounds-check', '--pointer-check', '--pointer-overflow-check', '--signed-overflow-check',
           '--div-by-zero-check', '--undefined-shift-check', '--pointer-primitive-check']
 MEM_KB = 24 * 1024 * 1024
@@ -66,6 +66,54 @@ def sh(cmd, timeout=None, cwd=None, mem=True):
     except subprocess.TimeoutExpired as e:
         subprocess.run(['pkill', '-P', str(os.getpid()), '-x', 'cvc5'], stderr=subprocess.DEVNULL)
         return 124, (e.stdout or b'').decode(errors='replace') + '\nTIMEOUT'
+
+
+def race(base, backends, timeout):
+    """run `base + BACKENDS[be]` for every back end concurrently; yield (backend, rc, output, seconds) as they finish;
+    when the consumer stops iterating the remaining processes are killed"""
+    import tempfile, signal
+    procs = []
+    pre = f'ulimit -v {MEM_KB}; '
+    t0 = time.time()
+    for be in backends:
+        f = tempfile.TemporaryFile()
+        cmd = ['bash', '-c', pre + 'exec ' + ' '.join(shquote(c) for c in base + BACKENDS[be])]
+        procs.append([be, subprocess.Popen(cmd, stdout=f, stderr=subprocess.STDOUT, start_new_session=True), f])
+    try:
+        pending = list(procs)
+        while pending:
+            for item in list(pending):
+                be, p, f = item
+                rc = p.poll()
+                if rc is not None:
+                    pending.remove(item)
+                    f.seek(0)
+                    yield be, rc, f.read().decode(errors='replace'), time.time() - t0
+            if pending and time.time() - t0 > timeout:
+                for be, p, f in pending:
+                    kill_tree(p)
+                    f.seek(0)
+                    yield be, 124, f.read().decode(errors='replace') + '\nTIMEOUT', time.time() - t0
+                pending = []
+            if pending:
+                time.sleep(0.2)
+    finally:
+        for be, p, f in procs:
+            if p.poll() is None:
+                kill_tree(p)
+            f.close()
+
+
+def kill_tree(p):
+    import signal
+    try:
+        os.killpg(p.pid, signal.SIGKILL)
+    except Exception:
+        pass
+    try:
+        p.wait(timeout=5)
+    except Exception:
+        pass
 
 
 def shquote(s):
@@ -223,10 +271,9 @@ def run_group(g, workdir):
         base += ['--unwindset', ','.join(r.unwindset)]
     base += ['--object-bits', str(g.object_bits or 11)]
     last = None
-    for be in backends:
-        t1 = time.time()
-        rc, out = sh(base + BACKENDS[be], timeout=g.timeout)
-        dt = time.time() - t1
+    # the back ends of a portfolio run concurrently; results are consumed in the order they finish and the first one that
+    # reaches a verdict decides (the others are killed)
+    for be, rc, out, dt in race(base, backends, g.timeout):
         r.solver_s += dt
         r.backend = be
         r.log += f'\n--- backend {be} rc={rc} {dt:.1f}s\n'
